@@ -220,6 +220,26 @@ def run_quad(c):
             continue
         ck.check(bool(b) == truth, f"quadric:is_tangent:{name}:before", (bool(b), truth))
         ck.check(bool(a) == truth, f"quadric:is_tangent:{name}:after", (bool(a), truth))
+    # the dual quadric (two covariant indices) is an object in its own right: it can be transformed, the image of the dual is
+    # the dual of the image, and it contains exactly the tangent hyperplanes before and after
+    if abs(np.linalg.det(Sa)) > 1e-6:
+        Qd, f = call("quadric.dual", lambda: Q.dual)
+        tQd, g = (None, None) if f else call("t*dual", lambda: t * Qd)
+        if f or g:
+            ck.add(f or g)
+        else:
+            dual_of_image, f = call("(t*quadric).dual", lambda: tQ.dual)
+            if f:
+                ck.add(f)
+            else:
+                ck.check(C.peq_all(tQd.array, dual_of_image.array, 2, 1e-6) and tQd.is_dual is True, "quadric:dual:image-of-dual=dual-of-image", C.short((np.asarray(tQd.array).tolist(), np.asarray(dual_of_image.array).tolist())))
+            Ht = (Line if d == 2 else Plane)(f2(hx) / max(1.0, float(max(abs(a) for a in hx))))
+            b, f = call("dual.contains", Qd.contains, Ht)
+            a, g = call("dual.contains", lambda: tQd.contains(t * Ht))
+            if f or g:
+                ck.add(f or g)
+            else:
+                ck.check(bool(b) and bool(a), "quadric:dual:contains-tangent-hyperplane:before-and-after", (bool(b), bool(a)))
     return ck.result()
 
 
